@@ -8,6 +8,7 @@ import (
 	"encoding/base64"
 	"errors"
 	"strings"
+	"unicode/utf8"
 )
 
 const hexchars = "0123456789abcdef"
@@ -298,7 +299,8 @@ var jsStringEscapes = []string{
 }
 
 // jsStringEscape escapes the string s so it can be placed within a JavaScript
-// and JSON string with single or double quotes, and write it to w.
+// and JSON string with single or double quotes, and write it to w. The bytes
+// of s that are not valid UTF-8 are replaced with U+FFFD.
 func jsStringEscape(w strWriter, s string) error {
 	last := 0
 	for i, c := range s {
@@ -310,6 +312,12 @@ func jsStringEscape(w strWriter, s string) error {
 			esc = `\u2028`
 		case c == '\u2029':
 			esc = `\u2029`
+		case c == utf8.RuneError:
+			// Replace a byte that is not valid UTF-8, but not an encoded
+			// U+FFFD.
+			if _, size := utf8.DecodeRuneInString(s[i:]); size == 1 {
+				esc = `\ufffd`
+			}
 		}
 		if esc == "" {
 			continue
